@@ -168,7 +168,7 @@ func RunChild(name string, in any, opt ChildOpt) *ChildResult {
 	cmd.Stderr = stdf
 	cmd.Dir = dir
 	env := os.Environ()
-	env = append(env, "GORACE=halt_on_error=0 log_path="+filepath.Join(dir, "race"))
+	env = append(env, "GORACE=halt_on_error=0 exitcode=0 log_path="+filepath.Join(dir, "race"))
 	if opt.GOMAXPROCS > 0 {
 		env = append(env, fmt.Sprintf("GOMAXPROCS=%d", opt.GOMAXPROCS))
 	}
@@ -280,9 +280,8 @@ func RaceKey(report string) string {
 		if strings.HasPrefix(l, "Read at") || strings.HasPrefix(l, "Write at") || strings.HasPrefix(l, "Previous read at") || strings.HasPrefix(l, "Previous write at") {
 			if i+1 < len(lines) {
 				fn := strings.TrimSpace(lines[i+1])
-				if j := strings.Index(fn, "("); j > 0 {
-					fn = fn[:j]
-				}
+				fn = strings.TrimSuffix(fn, "()")
+				fn = strings.TrimPrefix(fn, "github.com/ozontech/")
 				fns = append(fns, fn)
 			}
 		}
@@ -344,4 +343,31 @@ func NormalizeMsg(m string) string {
 		b.WriteRune(r)
 	}
 	return trunc(b.String(), 160)
+}
+
+// PanicFunc is like PanicSite but classifies by the function name of the
+// first /repo frame (stable across unrelated edits), e.g.
+// "pipeline.(*stream).tryUnblock".
+func PanicFunc(stderr string) (msg, fn string) {
+	msg, _ = PanicSite(stderr)
+	lines := strings.Split(stderr, "\n")
+	start := 0
+	for i, l := range lines {
+		if strings.HasPrefix(l, "panic: ") || strings.HasPrefix(l, "fatal error: ") {
+			start = i
+			break
+		}
+	}
+	for i := start; i+1 < len(lines); i++ {
+		t := strings.TrimSpace(lines[i+1])
+		if strings.HasPrefix(t, "/repo/") && !strings.Contains(t, "/repo/logger/") {
+			f := strings.TrimSpace(lines[i])
+			if j := strings.LastIndex(f, "("); j > 0 {
+				f = f[:j]
+			}
+			f = strings.TrimPrefix(f, "github.com/ozontech/file.d/")
+			return msg, f
+		}
+	}
+	return msg, ""
 }
